@@ -68,6 +68,28 @@ def clientDgram (f : UdpFlow) (bytes : Bytes) : UdpDgram := (((UdpDgram.new f.ra
 def serverDgram (f : UdpFlow) (bytes : Bytes) : UdpDgram := (((UdpDgram.new f.raw).src f.sv).dst f.cl).push bytes
 end UdpFlow
 
+
+/-! ## stdlib-level UDP compositions (src/stdlib/ipv4/udp.rs) -/
+
+/-- `ipv4::udp::unicast(src, dst, raw:, *payload)` -/
+def udpUnicast (src dst : Sock) (raw : Bool) (buf : Bytes) : Bytes :=
+  ((((UdpDgram.new raw).src src).dst dst).push buf).frame
+
+/-- `ipv4::udp::broadcast(src, dst, srcip:, raw:, *payload)` -/
+def udpBroadcast (src dst : Sock) (srcip : Option Nat) (raw : Bool) (buf : Bytes) : Bytes :=
+  let d := ((((UdpDgram.new raw).src src).dst dst).broadcast).push buf
+  (match srcip with | some ip => d.srcip ip | none => d).frame
+
+/-- `UdpFlow.client_dgram / server_dgram (frag_off:, csum:, *payload)` -/
+def UdpFlow.dgramCall (f : UdpFlow) (client : Bool) (fragOff : Nat) (csum : Bool) (bytes : Bytes) : Bytes :=
+  let d := (if client then f.clientDgram bytes else f.serverDgram bytes).fragOff fragOff
+  (if csum then d.csum else d).frame
+
+/-- `UdpFlow.client_raw_dgram / server_raw_dgram (csum:, *payload)`: UDP header + payload only -/
+def UdpFlow.rawDgramCall (f : UdpFlow) (client : Bool) (csum : Bool) (bytes : Bytes) : Bytes :=
+  let d := if client then f.clientDgram bytes else f.serverDgram bytes
+  (if csum then d.csum else d).dgram
+
 /-! ## ICMP echo (ezpkt/src/icmp4.rs) -/
 
 structure IcmpFlow where
